@@ -169,3 +169,50 @@ fn variant_name(error: &Error) -> String {
     .unwrap_or("")
     .to_owned()
 }
+
+/// `write_all` through an `OutputStream` whose underlying writer follows a
+/// script: each entry says how many bytes the next `write` accepts (clamped to
+/// `1..=len`), a negative entry makes that `write` fail, and once the script
+/// is used up every `write` accepts all it is given. Returns whether
+/// `write_all` succeeded and the bytes the underlying writer received.
+pub fn stream_write_all(active: bool, data: &[u8], script: Vec<i64>) -> (bool, Vec<u8>) {
+  use std::{cell::RefCell, collections::VecDeque, rc::Rc};
+
+  struct Scripted {
+    script: VecDeque<i64>,
+    received: Rc<RefCell<Vec<u8>>>,
+  }
+
+  impl Write for Scripted {
+    fn write(&mut self, buf: &[u8]) -> io::Result<usize> {
+      if buf.is_empty() {
+        return Ok(0);
+      }
+      let accepted = match self.script.pop_front() {
+        Some(count) if count < 0 => {
+          return Err(io::Error::new(io::ErrorKind::Other, "scripted failure"));
+        }
+        Some(count) => usize::try_from(count).unwrap_or(usize::MAX).clamp(1, buf.len()),
+        None => buf.len(),
+      };
+      self.received.borrow_mut().extend_from_slice(&buf[..accepted]);
+      Ok(accepted)
+    }
+
+    fn flush(&mut self) -> io::Result<()> {
+      Ok(())
+    }
+  }
+
+  let received = Rc::new(RefCell::new(Vec::new()));
+  let mut stream = OutputStream::verif_new(
+    Box::new(Scripted {
+      script: script.into(),
+      received: received.clone(),
+    }),
+    active,
+  );
+  let ok = stream.write_all(data).is_ok();
+  let received = received.borrow().clone();
+  (ok, received)
+}
